@@ -140,6 +140,38 @@ def run(ctx):
                                        "replay_cmd": "printf '%s |  | d%dx\\n' | %s verif search | grep RESULT | cut -c1-200; printf '%s |  | %da\\n' | %s verif refvalue | cut -c1-300" % (
                                            f, dd, C.ENGINE, f, dd, C.ENGINE)})
             violations.append({"replay": rp})
+    # ---- deeper still on pawn endings (a handful of legal moves per node): depth 8..12, where the value JUMPS between iterations as a
+    # promotion enters the horizon (seeded change r8C11: aspiration windows from iteration 8 on with a fail-high accepted as the value)
+    pawn_pos = ["7k/8/8/8/8/P7/8/7K w - - 0 1", "8/8/8/8/8/k7/p7/K7 b - - 0 1", "8/5k2/8/8/8/8/1P6/1K6 w - - 0 1", "8/8/4k3/8/8/4P3/8/4K3 w - - 0 1",
+                "k7/7p/8/8/8/8/8/K7 b - - 0 1", "8/8/8/8/4p3/8/4K3/4k3 b - - 0 1", "8/2k5/8/8/8/8/5P1P/6K1 w - - 0 1", "6k1/8/8/8/8/8/P6p/K7 w - - 0 1"]
+    pd = [8, 9, 10, 11, 12] if ctx["tier"] == "quick" else [8, 9, 10, 11, 12, 13, 14]
+    pjobs = [(f, d) for f in pawn_pos for d in pd]
+    with ThreadPoolExecutor(max_workers=C.NPROC) as ex:
+        pref = list(ex.map(ref, [(f, "%da" % d) for f, d in pjobs]))
+    peng = S.run_engine([{"group": "deep", "fen": f, "moves": [], "specs": ["d%dx" % d]} for f, d in pjobs])
+    npawn = 0
+    for (f, d), rv, e in zip(pjobs, pref, peng):
+        er = e["results"][0] if e["results"] else None
+        if rv is None or rv.get("panic") or rv.get("vroot") is None or er is None:
+            continue
+        npawn += 1
+        mv = {tuple(m[0][:2]) + (m[0][4],): m[1] for m in rv["moves"]}
+        problems = []
+        if er.get("panic"):
+            problems.append("engine panic")
+        else:
+            if er["score"] != rv["vroot"]:
+                problems.append("root score %s but negamax value %s" % (er["score"], rv["vroot"]))
+            if er["best"] is not None and mv.get((er["best"][0], er["best"][1], er["best"][4])) != rv["vroot"]:
+                problems.append("chosen move %s has value %s, position value %s" % (er["best"], mv.get((er["best"][0], er["best"][1], er["best"][4])), rv["vroot"]))
+        if problems:
+            rp = C.write_replay(prop, {"kind": "engine result at depth %d (cache off) on a pawn ending differs from the exact negamax value of its look-ahead game (driver reference)" % d,
+                                       "fen": f, "problems": problems,
+                                       "replay_cmd": "printf '%s |  | d%dx\\n' | %s verif search | grep RESULT | cut -c1-200; printf '%s |  | %da\\n' | %s verif refvalue | cut -c1-300" % (
+                                           f, d, C.ENGINE, f, d, C.ENGINE)})
+            violations.append({"replay": rp})
+            break
+    cov["pawn_ending_deep_searches_judged"] = npawn
     cov["deep_reference_positions_judged"] = ndeep
     cov["deep_reference_depth"] = dd
     cov["rule"] = ("20 positions (start, openings after moves, endgames, mates, stalemate, promotion, en passant, "
